@@ -100,6 +100,7 @@ class Run:
         self.inconclusive = []
         self.violations = []
         self.extra = {}
+        self._hint_seen = set()
         self.solver_timeout = 20 if tier == "quick" else 300
         self.cross_solvers = [] if tier == "quick" else ["z3old"]
         os.makedirs(OUT, exist_ok=True)
@@ -130,6 +131,16 @@ class Run:
         goal = f"(not (= (mod (- {smt.ref(a)} {smt.ref(b)}) {smt.R}) 0))"
         return self.obligation(name, lines, list(assumptions) + [goal], "unsat",
                                "identity", meta=meta, replay=replay)
+
+    def query(self, name, q, expect="unsat", kind="gadget", **kw):
+        """queue an xengine.Query; its factorisation hints become separate
+        Type-I obligations (deduplicated)"""
+        for (e, prod) in q.hints:
+            key = (e.id, prod.id)
+            if key not in self._hint_seen:
+                self._hint_seen.add(key)
+                self.identity(f"hint/factor/{e.id}_{prod.id}", e, prod)
+        return self.obligation(name, q.lines(), q.asserts, expect, kind, **kw)
 
     def validate(self, sym_bundle, real_bundle, ctx=None, nodes=None):
         """Translator validation: evaluate the symbolic bundle at the real
